@@ -1,5 +1,186 @@
-/- Engine `bundle` (C08): not built yet. -/
+/-
+  Engine `bundle` (C08).  One op line = one composition with `rtosc_bundle` (nested bundles are
+  composed bottom-up, each into its own block) followed by every reader.
+
+    C <tree>                        compose, then decompose an exact-size copy of the result
+    A <max_len> <tree> m<hex>*      compose, then `append_bundle` every message in turn
+    P <hex>                         `rtosc_bundle_p` on a plain block
+
+  tree tokens (prefix order):  m<hex>                  a message (its bytes, in an exact-size block)
+                               B<16 hex tt>:<n>:<cap>  bundle of the next n trees, built into a
+                                                       block of <cap> bytes (pre-filled 0xAA)
+  Output of C:  r=<ret> b=<block> [p=.. n=.. tt=.. len=.. d=<decomposition>] [nz=..]
+    block: hex, `z<n>` for n zero bytes, `-` for the empty block
+    decomposition:  m<hex>  |  B<tt>[<off>:<size>:<rtosc_message_length>:<decomposition>,…]
+  If the model predicts an out-of-bounds store or read the line is the sanitizer's verdict
+  `crash:asan:heap-buffer-overflow`; a loop that does not terminate is `crash:signal:27`
+  (the harness' CPU-time watchdog).
+-/
+import RtoscModel.Osc.Bundle
 import Driver.Common
 namespace Driver.BundleEngine
-def engine : Driver.Engine := Driver.stateless (fun _ => "unimplemented")
+open Rtosc Rtosc.Osc
+
+def crash : String := "crash:asan:heap-buffer-overflow"
+def hang : String := "crash:signal:27"
+
+inductive Tree where
+  | msg (b : Bytes)
+  | bundle (tt : UInt64) (cap : Nat) (kids : List Tree)
+
+def natOfBytes (bs : Bytes) : Nat := bs.foldl (fun a b => a * 256 + b.toNat) 0
+
+partial def parseTree : List String → Option (Tree × List String)
+  | [] => none
+  | t :: rest =>
+    if t.startsWith "m" then (ofHex (t.drop 1).toString).map fun b => (Tree.msg b, rest)
+    else if t.startsWith "B" then
+      match (t.drop 1).toString.splitOn ":" with
+      | [tth, ns, caps] =>
+        match ofHex tth, ns.toNat?, caps.toNat? with
+        | some tb, some n, some cap =>
+          if tb.length ≠ 8 ∨ n > 8 then none
+          else
+            let rec kids (k : Nat) (toks : List String) (acc : List Tree) : Option (List Tree × List String) :=
+              match k with
+              | 0 => some (acc.reverse, toks)
+              | k + 1 =>
+                match parseTree toks with
+                | none => none
+                | some (c, toks') => kids k toks' (c :: acc)
+            match kids n rest [] with
+            | none => none
+            | some (ks, toks) => some (Tree.bundle (UInt64.ofNat (natOfBytes tb)) cap ks, toks)
+        | _, _, _ => none
+      | _ => none
+    else none
+
+/-- block, return value -/
+abbrev Built := Bytes × Nat
+
+/-- Why a line ends in a crash. -/
+inductive Fail where
+  | oob | hang
+
+partial def build : Tree → Except Fail Built
+  | .msg b => .ok (b, b.length)
+  | .bundle tt cap kids => do
+    let blocks ← kids.mapM fun k => (build k).map (·.1)
+    match bundle (List.replicate cap (170 : UInt8)) tt blocks with
+    | .oob => .error .oob
+    | .hang => .error .hang
+    | .ok r => if r.oob then .error .oob else .ok (r.buf, r.ret)
+
+def hexz (b : Bytes) : String :=
+  if b.isEmpty then "-"
+  else if b.all (· = 0) then s!"z{b.length}"
+  else toHex b
+
+def hex64 (v : UInt64) : String := toHex (put64 v)
+
+def liftRd {α : Type} : Rd α → Except Fail α
+  | .ok a => .ok a
+  | .oob => .error .oob
+  | .hang => .error .hang
+
+def liftOpt {α : Type} : Option α → Except Fail α
+  | some a => .ok a
+  | none => .error .oob
+
+/-- decomposition of the packet of `size` bytes at offset `base` of the block `x` -/
+partial def decomp (x : Bytes) (base size depth : Nat) : Except Fail String := do
+  if depth > 20 then return "!depth"
+  let p := x.drop base
+  let isB ← liftOpt (bundleP p)
+  if !isB then return "m" ++ toHex (p.take size)
+  let tt ← liftOpt (bundleTimetag p)
+  let n ← liftRd (bundleElements p size)
+  let mut parts : List String := []
+  for i in List.range n do
+    let e ← liftOpt (bundleFetch p i)
+    let es ← liftOpt (bundleSize p i)
+    match e with
+    | none => parts := parts ++ ["NULL"]
+    | some off =>
+      if off > size ∨ es > size - off then parts := parts ++ [s!"{off}:{es}:!range"]
+      else
+        let ml ← match messageLength ((p.drop off).take es) with
+          | some l => pure l
+          | none => throw Fail.hang
+        let d ← decomp x (base + off) es (depth + 1)
+        parts := parts ++ [s!"{off}:{es}:{ml}:{d}"]
+  return "B" ++ hex64 tt ++ "[" ++ ",".intercalate parts ++ "]"
+
+def readers (buf : Bytes) (ret : Nat) : Except Fail String := do
+  let x := buf.take ret
+  let p ← liftOpt (bundleP x)
+  let n ← liftRd (bundleElements x ret)
+  let tt ← liftOpt (bundleTimetag x)
+  let len ← match messageLength x with
+    | some l => pure l
+    | none => throw Fail.hang
+  let d ← decomp x 0 ret 0
+  return s!" p={if p then 1 else 0} n={n} tt={hex64 tt} len={len} d={d}"
+
+def render : Except Fail String → String
+  | .ok s => s
+  | .error .oob => crash
+  | .error .hang => hang
+
+def stepC (toks : List String) : String :=
+  match parseTree toks with
+  | some (.bundle tt cap kids, []) => render do
+    let (buf, ret) ← build (.bundle tt cap kids)
+    let head := s!"r={ret} b={hexz buf}"
+    if ret > cap then return head ++ " ret-exceeds-len"
+    if ret ≥ 16 then
+      let r ← readers buf ret
+      if cap ≥ ret + 4 then
+        let nz ← liftRd (bundleElements buf cap)
+        return head ++ r ++ s!" nz={nz}"
+      else return head ++ r
+    else return head
+  | _ => "bad-op"
+
+def stepA (maxLen : Nat) (toks : List String) : String :=
+  match parseTree toks with
+  | some (.bundle tt cap kids, srcs) =>
+    match srcs.mapM (fun (s : String) => if s.startsWith "m" then ofHex (s.drop 1).toString else none) with
+    | none => "bad-op"
+    | some msgs => render do
+      let (buf0, ret0) ← build (.bundle tt cap kids)
+      let mut buf := buf0
+      let mut len := ret0
+      let mut rets : List String := []
+      for m in msgs do
+        let r ← liftRd (appendBundle buf m maxLen len m.length)
+        if r.oob then throw Fail.oob
+        buf := r.buf
+        len := r.ret
+        rets := rets ++ [toString len]
+      let head := s!"r={ret0} a={if rets.isEmpty then "-" else ",".intercalate rets} b={hexz buf}"
+      if len > cap then return head ++ " ret-exceeds-len"
+      if len ≥ 16 then
+        let r ← readers buf len
+        return head ++ r
+      else return head
+  | _ => "bad-op"
+
+def step (line : String) : String :=
+  match words line with
+  | ["P", h] =>
+    match ofHex h with
+    | some m =>
+      match bundleP m with
+      | some b => s!"p={if b then 1 else 0}"
+      | none => crash
+    | none => "bad-op"
+  | "C" :: toks => stepC toks
+  | "A" :: ml :: toks =>
+    match ml.toNat? with
+    | some maxLen => stepA maxLen toks
+    | none => "bad-op"
+  | _ => "bad-op"
+
+def engine : Driver.Engine := Driver.stateless step
 end Driver.BundleEngine
